@@ -9,5 +9,5 @@ def run(tier):
         "C17", tier, LEVEL, models=[("Metrics", "Metrics_a.cfg")] + ([("Metrics", "Metrics_b.cfg")] if tier == "thorough" else []),
         need=('converged','converged_after_repopulation_with_every_cluster_non_empty'),
         rule="""every converged completed run with all clusters non-empty""",
-        extra=lambda rep, trs, tier: _metrics.ch_family(rep, tier, {"C17"}),
+        extra=lambda rep, trs, tier: (_metrics.ch_family(rep, tier, {"C17"}), _metrics.big_family(rep, tier, {"C17"})),
         nontrivial=lambda t: (t['hdr']['id'],) if any(e['ev']=='converged' for e in t['events']) else None)
